@@ -164,7 +164,7 @@ func MutateStatic(t *sim.T, m *StaticModel, focus FaultFocus) string {
 		}
 		r := t.Choose(len(tb.Rows))
 		setCell(tb, r, tb.Col("parent_station"), cell(tb, r, tb.Col("stop_id")))
-		return fmt.Sprintf("stop row %d is its own parent", r+1)
+		return fmt.Sprintf("stop row %d is its own parent", r+1) + shadowRow(t, tb, r)
 	case 6: // k-cycle of parents
 		tb := f.Table("stops.txt")
 		if tb == nil || tb.Raw != nil || len(tb.Rows) < 2 || tb.Col("parent_station") < 0 {
@@ -187,7 +187,7 @@ func MutateStatic(t *sim.T, m *StaticModel, focus FaultFocus) string {
 			}
 			setCell(tb, a, pc, cell(tb, b, ic))
 		}
-		return fmt.Sprintf("parent cycle of length %d starting at stop row %d", k, start+1)
+		return fmt.Sprintf("parent cycle of length %d starting at stop row %d", k, start+1) + shadowRow(t, tb, start)
 	case 7: // same-stop transfer
 		tb := f.Table("transfers.txt")
 		if tb == nil || tb.Raw != nil || len(tb.Rows) == 0 {
@@ -610,4 +610,25 @@ func MergeHeaderCells(t *sim.T, m *StaticModel) string {
 		tb.Rows[r] = merge(tb.Rows[r])
 	}
 	return desc
+}
+
+// shadowRow: now and then a stop on a parent cycle also has a namesake, a row with the same stop_id and no
+// parent, somewhere before or after it (the later row wins the id; what is known about "the stop with this id"
+// from the earlier row does not hold for the later one).
+func shadowRow(t *sim.T, tb *Table, r int) string {
+	if !t.Chance(1, 3) {
+		return ""
+	}
+	row := append([]string(nil), tb.Rows[r]...)
+	if pc := tb.Col("parent_station"); pc >= 0 && pc < len(row) {
+		row[pc] = ""
+	}
+	at := t.Choose(len(tb.Rows) + 1)
+	if t.Chance(1, 2) {
+		at = 0
+	}
+	tb.Rows = append(tb.Rows, nil)
+	copy(tb.Rows[at+1:], tb.Rows[at:])
+	tb.Rows[at] = row
+	return fmt.Sprintf(" (plus a parentless row with the same stop_id at %d)", at+1)
 }
